@@ -82,14 +82,14 @@ def main():
             shutil.rmtree(wt, ignore_errors=True)
         # restore evidence files of /verif (the runs above rewrote them against a mutated tree)
         sh(['git', 'checkout', '--', 'evidence'], cwd=V)
-        d = os.path.join(V, 'seeded', '%s-%d' % (prop, i))
+        d = os.path.join(V, 'seeded', '%s-%s%d' % (prop, os.environ.get('SEED_TAG', ''), i))
         os.makedirs(d, exist_ok=True)
         shutil.copy(patch, os.path.join(d, 'patch.diff'))
         if os.path.exists(demo):
             shutil.copy(demo, os.path.join(d, 'demo_test.go.txt'))
         json.dump(rec, open(os.path.join(d, 'meta.json'), 'w'), indent=1)
         results.append(rec)
-        print('%s-%d valid=%s caught_by=%s %s' % (prop, i, rec.get('valid'), rec.get('caught_by'),
+        print('%s-%s%d valid=%s caught_by=%s %s' % (prop, os.environ.get('SEED_TAG', ''), i, rec.get('valid'), rec.get('caught_by'),
                                                   [(r['check'], r['exit'], r['sites'][:3]) for r in rec['ran']]))
     return 0
 
